@@ -80,6 +80,23 @@ def del_sites():
     return out
 
 
+def cond_sites():
+    """the statements whose deletion IS detected, made conditional on an opaque flag (`if black_box(true) { stmt }`): behaviour is unchanged, but a rule that only
+    establishes that the call exists stays silent while one that establishes it on every path fires.  Silent variants therefore list the existence-only rules."""
+    det = set()
+    for fn in ("sweep_del.json", "sweep_del.part.json"):
+        pth = os.path.join(VERIF, "notes", fn)
+        if os.path.exists(pth):
+            det |= {x["name"] for x in json.load(open(pth)) if x["status"] == "detected"}
+    out = []
+    for s_ in del_sites():
+        if s_["name"] in det:
+            t = s_["old"]
+            ind = t[:len(t) - len(t.lstrip())]
+            out.append(dict(s_, new=ind + "if std::hint::black_box(true) { " + t.strip() + " }"))
+    return out
+
+
 def one_sites():
     """every `+ 1` / `- 1` / `+= 1` / `-= 1` of the library that reaches MIR as an Add/Sub with the constant 1: the 1 becomes 0"""
     from sa import mir
@@ -144,7 +161,7 @@ if __name__ == "__main__":
     jobs = int(sys.argv[2]) if len(sys.argv) > 2 else 2
     for i in range(jobs):
         SLOTS.put(i)          # slot 0 shares /verif/.work/target
-    sites = {"cmp": cmp_sites, "del": del_sites, "one": one_sites}[kind]()
+    sites = {"cmp": cmp_sites, "del": del_sites, "one": one_sites, "cond": cond_sites}[kind]()
     if len(sys.argv) > 3 and sys.argv[3].startswith("@"):
         want = set(open(sys.argv[3][1:]).read().split("\n"))
         sites = [s for s in sites if s["name"] in want]
